@@ -446,21 +446,39 @@ def gen_model(rng, shape, kind=None):
     data = gen.coarse(np.asarray(data, dtype=float), 20)
     return data, kind
 
-def find_cache(f):
-    for cell in (f.__closure__ or ()):
-        try:
-            v = cell.cell_contents
-        except ValueError:
-            continue
-        if isinstance(v, dict) and (not v or all(isinstance(k, tuple) for k in v)) and f.__code__.co_freevars[list(f.__closure__).index(cell)] == 'precalc_cache':
-            return v
-    return None
+class Recorder:
+    """records every call of `low_cov_precalc_…` (looked up as a module global by lowpass_func) with its result, so that
+    the implementation's own simulated tables can be handed to the model — wherever the code keeps its cache"""
+    NAME = 'low_cov_precalc_GATK_multisample_GATK_multisample'
+    def __init__(self, LP):
+        self.LP = LP; self.calls = []; self.orig = None
+    def __enter__(self):
+        self.orig = getattr(self.LP, self.NAME, None)
+        if self.orig is not None:
+            orig = self.orig; calls = self.calls
+            def recording(*a, **k):
+                r = orig(*a, **k); calls.append(r); return r
+            setattr(self.LP, self.NAME, recording)
+        return self
+    def __exit__(self, *exc):
+        if self.orig is not None:
+            setattr(self.LP, self.NAME, self.orig)
+        return False
 
-def run_lowpass(ctx, case):
-    """build and call the corrected model function; returns (model spectrum, output, precalc tuple)"""
-    dadi = ctx['dadi']; LP = LPmod(ctx)
+def fresh_LP(ctx):
+    """the LowPass module in its just-imported state (module-level state re-initialised)"""
+    import importlib
+    LP = LPmod(ctx)
+    return importlib.reload(LP)
+
+def case_ids(case):
+    return list(case.get('ids') or ['p%d' % i for i in range(len(case['pops']))])
+
+def build_lowpass(ctx, LP, case):
+    """make_low_pass_func_GATK_multisample for one case; returns (wrapped function, model function, list of ns it was called with)"""
+    dadi = ctx['dadi']
     pops = case['pops']
-    ids = ['p%d' % i for i in range(len(pops))]
+    ids = case_ids(case)
     cov = {ids[i]: covarr(p['cov']) for i, p in enumerate(pops)}
     nseq = [p['nseq'] for p in pops]; nsub = [p['nsub'] for p in pops]
     Fx = None if case.get('Fx_none') else [p['F'] for p in pops]
@@ -469,24 +487,117 @@ def run_lowpass(ctx, case):
     calls = []
     def func(params, ns, pts):
         calls.append(list(ns))
-        fs = dadi.Spectrum(data.copy(), mask=(np.ma.nomask if extra_mask is None else extra_mask))      # corners masked by default, as for every dadi model
-        return fs
+        return dadi.Spectrum(data.copy(), mask=(np.ma.nomask if extra_mask is None else extra_mask))   # corners masked by default, as for every dadi model
+    f = LP.make_low_pass_func_GATK_multisample(func, cov, ids, nseq, nsub, sim_threshold=case['thr'], Fx=Fx, nsim=case['nsim'])
+    return f, func, calls
+
+def eval_lowpass(LP, f, case):
+    """one evaluation with the case's rng seeds (only a first evaluation draws random numbers)"""
     np.random.seed(case['sim_seed'] % (2 ** 32))
     LP.rng = np.random.default_rng(case['sim_seed'])
-    f = LP.make_low_pass_func_GATK_multisample(func, cov, ids, nseq, nsub, sim_threshold=case['thr'], Fx=Fx, nsim=case['nsim'])
-    out = f([], list(nsub), None)
-    model = func([], nseq, None)
-    pre = find_cache(f)
-    pre = pre.get(tuple(nsub)) if pre else None
-    return model, out, pre, calls
+    return f([], [p['nsub'] for p in case['pops']], None)
 
-def small_case(case):
-    return dict(kind='lowpass', pops=case['pops'], thr=case['thr'], nsim=case['nsim'], sim_seed=case['sim_seed'],
-                data=np.asarray(case['data'], dtype=float), mask=(None if case.get('mask') is None else np.asarray(case['mask'], dtype=int)),
-                model_kind=case.get('model_kind'), Fx_none=bool(case.get('Fx_none')), deep=bool(case.get('deep')))
+def run_lowpass(ctx, case):
+    """the corrected model function built and evaluated *alone* (module state fresh); returns
+    (model spectrum, output, recorded precalc tuple or None, ns the model function was called with)"""
+    LP = fresh_LP(ctx)
+    f, func, calls = build_lowpass(ctx, LP, case)
+    with Recorder(LP) as rec:
+        out = eval_lowpass(LP, f, case)
+    model = func([], [p['nseq'] for p in case['pops']], None)
+    return model, out, (rec.calls[-1] if rec.calls else None), calls[:1]
+
+def small_case(case, kind='lowpass'):
+    d = dict(kind=kind, pops=case['pops'], thr=case['thr'], nsim=case['nsim'], sim_seed=case['sim_seed'],
+             data=np.asarray(case['data'], dtype=float), mask=(None if case.get('mask') is None else np.asarray(case['mask'], dtype=int)),
+             model_kind=case.get('model_kind'), Fx_none=bool(case.get('Fx_none')), deep=bool(case.get('deep')))
+    if case.get('ids'): d['ids'] = list(case['ids'])
+    return d
+
+def case_from_json(inp):
+    def arr(o, dtype=float):
+        return np.array(o['data'], dtype=dtype).reshape(o['shape']) if isinstance(o, dict) else (None if o is None else np.array(o, dtype=dtype))
+    case = dict(inp)
+    case['data'] = arr(inp['data']); case['mask'] = arr(inp.get('mask'), int)
+    return case
+
+def regime_of(case):
+    return 'analytic' if case['thr'] >= 1 else ('simulated' if case['thr'] <= 0 else 'mixed')
+
+def unmasked(out):
+    return np.where(np.ma.getmaskarray(out), 0.0, np.asarray(np.ma.getdata(out), dtype=float))
+
+def model_data(model):
+    return np.where(np.ma.getmaskarray(model), 0.0, np.asarray(np.ma.getdata(model), dtype=float))
+
+def closure_checks(chk, case, model, out, inp, tag=''):
+    """shape, finiteness, non-negativity, total <= uncorrected total; returns False if the output is unusable"""
+    nsub = [p['nsub'] for p in case['pops']]
+    mdata = model_data(model)
+    odata = np.asarray(np.ma.getdata(out), dtype=float)
+    if odata.shape != tuple(n + 1 for n in nsub):
+        chk.fail('make_low_pass_func:shape', '%soutput shape %r for nsub=%r' % (tag, odata.shape, nsub), inp); return False
+    vis = unmasked(out)
+    if not np.all(np.isfinite(vis)):
+        chk.fail('make_low_pass_func:nonfinite', '%scorrected model has non-finite entries' % tag, inp); return False
+    tot_in = float(mdata.sum()); tot_out = float(vis.sum())
+    scale = max(float(np.max(np.abs(mdata))), 1e-300)
+    if vis.min() < -RTOL * scale:
+        chk.fail('make_low_pass_func:negative', '%scorrected model has a negative entry %r (model is non-negative)' % (tag, float(vis.min())), inp)
+    if tot_out > tot_in * (1 + 1e-9) + 1e-12 * scale:
+        chk.fail('make_low_pass_func:total', '%scorrected model has total %r, more than the uncorrected total %r (regime %s)' % (tag, tot_out, tot_in, regime_of(case)), inp)
+    return True
+
+def deep_check(chk, ctx, case, model, out, inp, tag=''):
+    """deep coverage in every individual: corrected = plain projection of the model spectrum (explicit 2^-D bound)"""
+    if regime_of(case) == 'simulated':
+        return True               # sim_threshold = 0: every entry is a Monte-Carlo estimate from nsim draws, the identity only holds up to sampling noise
+    LP = LPmod(ctx)
+    pops = case['pops']; d = len(pops)
+    nsub = [p['nsub'] for p in pops]
+    mdata = model_data(model)
+    odata = np.asarray(np.ma.getdata(out), dtype=float); omask = np.array(np.ma.getmaskarray(out))
+    tot_in = float(mdata.sum()); scale = max(float(np.max(np.abs(mdata))), 1e-300)
+    Dmin = min(min(i for i, v in enumerate(p['cov']) if v > 0) for p in pops)
+    if all(p['F'] == 0 for p in pops) or case.get('Fx_none'):
+        ref = model.project(list(nsub))
+        rdata = np.asarray(np.ma.getdata(ref), dtype=float); rmask = np.array(np.ma.getmaskarray(ref))
+        what = 'Spectrum.project'
+    else:
+        rdata = mdata.copy()
+        for ax, p in enumerate(pops):
+            P = np.array(LP.projection_matrix(p['nseq'], p['nsub'], p['F']), dtype=float)
+            rdata = np.moveaxis(np.tensordot(rdata, P, axes=([ax], [0])), -1, ax)
+        rmask = np.zeros(rdata.shape, dtype=bool); rmask[tuple([0] * d)] = True; rmask[tuple(nsub)] = True
+        what = 'the inbreeding-aware projection matrices'
+    tol = sum((Dmin + 2 + p['nsub']) for p in pops) * 2.0 ** (-Dmin) * tot_in + RTOL * scale
+    um = ~rmask & ~omask
+    err = float(np.max(np.abs(odata[um] - rdata[um]))) if um.any() else 0.0
+    if err > tol:
+        rel = err / max(float(np.max(np.abs(rdata[um]))), 1e-300) if um.any() else 0.0
+        chk.fail('make_low_pass_func:deep-coverage', '%severy individual has depth >= %d, yet the corrected model differs from the model projected with %s by %.3g '
+                 '(%.1f%% of the largest entry; bound %.3g)' % (tag, Dmin, what, err, 100 * rel, tol), inp)
+        return False
+    return True
+
+def model_corrected(ctx, case, mdata, sim_outputs):
+    """the Lean model's corrected spectrum for the case's OWN coverage distributions (simulated tables as given);
+    returns (use_sim mask, array) or an error string"""
+    drv = ctx['driver']
+    pops = case['pops']
+    popstr = ';'.join('%s@%d@%d@%s' % (fmt_list(p['cov']), p['nseq'], p['nsub'], rat(0.0 if case.get('Fx_none') else p['F'])) for p in pops)
+    o1 = drv.ask('lp_usesim %s %s' % (rat(case['thr']), popstr))
+    if not o1.startswith('ok '):
+        return o1
+    mus = parse_ndf(o1[3:]) > 0.5
+    sims = '-' if not sim_outputs else ';'.join('%s=%s' % ('.'.join(str(int(a)) for a in af), fmt_list(np.asarray(so, dtype=float).ravel().tolist())) for af, so in sim_outputs.items())
+    o2 = drv.ask('lp_corrected %s %s %s %s' % (rat(case['thr']), popstr, fmt_nd(mdata), sims))
+    if not o2.startswith('ok '):
+        return o2[:300]
+    return mus, parse_ndf(o2[3:])
 
 def check_lowpass(chk, ctx, case, do_model=True):
-    dadi = ctx['dadi']; LP = LPmod(ctx)
+    """one corrected model function, built and evaluated alone"""
     inp = small_case(case)
     pops = case['pops']; d = len(pops)
     nseq = [p['nseq'] for p in pops]; nsub = [p['nsub'] for p in pops]
@@ -498,90 +609,257 @@ def check_lowpass(chk, ctx, case, do_model=True):
     except Exception as e:
         chk.fail('make_low_pass_func:raises:%s' % type(e).__name__, 'corrected model for nseq=%r nsub=%r thr=%r raises %r' % (nseq, nsub, case['thr'], e), inp)
         return
-    regime = 'analytic' if case['thr'] >= 1 else ('simulated' if case['thr'] <= 0 else 'mixed')
+    regime = regime_of(case)
     chk.l3(('lowpass', d, regime, case.get('model_kind'), any(p['F'] > 0 for p in pops), any(p['nsub'] < p['nseq'] for p in pops), bool(case.get('deep'))))
     chk.stat('lowpass_%dpop_%s' % (d, regime))
     if calls and calls[0] != list(nseq):
         chk.fail('make_low_pass_func:sample-sizes', 'the model function is called with ns=%r, expected the sequenced sizes %r' % (calls[0], nseq), inp)
+    if not closure_checks(chk, case, model, out, inp):
+        return
     odata = np.asarray(np.ma.getdata(out), dtype=float)
-    omask = np.array(np.ma.getmaskarray(out))
-    mdata = np.where(np.ma.getmaskarray(model), 0.0, np.asarray(np.ma.getdata(model), dtype=float))
-    if odata.shape != tuple(n + 1 for n in nsub):
-        chk.fail('make_low_pass_func:shape', 'output shape %r for nsub=%r' % (odata.shape, nsub), inp); return
-    vis = np.where(omask, 0.0, odata)
-    if not np.all(np.isfinite(vis)):
-        chk.fail('make_low_pass_func:nonfinite', 'corrected model has non-finite entries', inp); return
-    tot_in = float(mdata.sum()); tot_out = float(vis.sum())
-    scale = max(float(np.max(np.abs(mdata))), 1e-300)
-    if vis.min() < -RTOL * scale:
-        chk.fail('make_low_pass_func:negative', 'corrected model has a negative entry %r (model is non-negative)' % float(vis.min()), inp)
-    if tot_out > tot_in * (1 + 1e-9) + 1e-12 * scale:
-        chk.fail('make_low_pass_func:total', 'corrected model has total %r, more than the uncorrected total %r (regime %s)' % (tot_out, tot_in, regime), inp)
-    if pre is None:
-        chk.notes.append('precalc cache not found in the closure of lowpass_func'); return
-    prob_nocall_ND, use_sim_mat, proj_mats, heterr_mats, sim_outputs = pre
-    use_sim_mat = np.asarray(use_sim_mat, dtype=bool)
-    # closure properties of the simulated outputs (fixed seed): each is a probability table
-    for af, so in sim_outputs.items():
-        so = np.asarray(so, dtype=float)
-        if so.shape != odata.shape or not np.all(np.isfinite(so)) or so.min() < 0 or abs(so.sum() - 1) > 1e-9:
-            chk.fail('simulate_GATK_multisample_calling:closure', 'simulated output for allele counts %r: shape %r, min %r, total %r (not a probability table)'
-                     % (tuple(int(a) for a in af), so.shape, float(np.nanmin(so)) if so.size else None, float(np.nansum(so))), inp)
-            return
-    if set(tuple(int(a) for a in k) for k in sim_outputs) != set(tuple(int(a) for a in i) for i in np.argwhere(use_sim_mat)):
-        chk.fail('low_cov_precalc:sim-indices', 'simulated outputs exist for %d index tuples, use_sim_mat selects %d' % (len(sim_outputs), int(use_sim_mat.sum())), inp)
-    if regime == 'analytic' and use_sim_mat.any():
-        chk.fail('low_cov_precalc:threshold-1', 'sim_threshold = 1 ("always analytic") simulates %d entries' % int(use_sim_mat.sum()), inp)
-    if regime == 'simulated' and not use_sim_mat.all():
-        # threshold 0 means "always simulate" unless the no-call probability is exactly 0
-        if np.any((np.asarray(prob_nocall_ND) > 0) & ~use_sim_mat):
-            chk.fail('low_cov_precalc:threshold-0', 'sim_threshold = 0 leaves entries with positive no-call probability analytic', inp)
-    # deep coverage: corrected = plain projection
+    vis = unmasked(out); mdata = model_data(model)
+    tot_in = float(mdata.sum()); tot_out = float(vis.sum()); scale = max(float(np.max(np.abs(mdata))), 1e-300)
     if case.get('deep'):
-        Dmin = min(min(i for i, v in enumerate(p['cov']) if v > 0) for p in pops)
-        if all(p['F'] == 0 for p in pops):
-            ref = model.project(list(nsub))
-            rdata = np.asarray(np.ma.getdata(ref), dtype=float); rmask = np.array(np.ma.getmaskarray(ref))
-            what = 'Spectrum.project'
-        else:
-            rdata = mdata.copy()
-            for ax, p in enumerate(pops):
-                P = np.array(LP.projection_matrix(p['nseq'], p['nsub'], p['F']), dtype=float)
-                rdata = np.moveaxis(np.tensordot(rdata, P, axes=([ax], [0])), -1, ax)
-            rmask = np.zeros(rdata.shape, dtype=bool); rmask[tuple([0] * d)] = True; rmask[tuple(nsub)] = True
-            what = 'the inbreeding-aware projection matrices'
-        tol = sum((Dmin + 2 + p['nsub']) for p in pops) * 2.0 ** (-Dmin) * tot_in + RTOL * scale
-        um = ~rmask & ~omask
-        err = float(np.max(np.abs(odata[um] - rdata[um]))) if um.any() else 0.0
-        if err > tol:
-            chk.fail('make_low_pass_func:deep-coverage', 'every individual has depth >= %d, yet the corrected model differs from the model projected with %s by %.3g (bound %.3g)' % (Dmin, what, err, tol), inp)
+        deep_check(chk, ctx, case, model, out, inp)
+    sim_outputs = {}; use_sim_mat = None; pn = None
+    if pre is None:
+        chk.stat('precalc_not_observed')
+        if regime != 'analytic':
+            chk.fail('make_low_pass_func:precalc-not-run', 'a freshly built low-pass function evaluated for the first time did not compute its transformation matrices '
+                     '(low_cov_precalc_… was not called): whatever it used was not derived from its own arguments', inp)
+            return
+    else:
+        prob_nocall_ND, use_sim_mat, proj_mats, heterr_mats, sim_outputs = pre
+        use_sim_mat = np.asarray(use_sim_mat, dtype=bool); pn = np.asarray(prob_nocall_ND, dtype=float)
+        # closure properties of the simulated outputs (fixed seed): each is a probability table
+        for af, so in sim_outputs.items():
+            so = np.asarray(so, dtype=float)
+            if so.shape != odata.shape or not np.all(np.isfinite(so)) or so.min() < 0 or abs(so.sum() - 1) > 1e-9:
+                chk.fail('simulate_GATK_multisample_calling:closure', 'simulated output for allele counts %r: shape %r, min %r, total %r (not a probability table)'
+                         % (tuple(int(a) for a in af), so.shape, float(np.nanmin(so)) if so.size else None, float(np.nansum(so))), inp)
+                return
+        if set(tuple(int(a) for a in k) for k in sim_outputs) != set(tuple(int(a) for a in i) for i in np.argwhere(use_sim_mat)):
+            chk.fail('low_cov_precalc:sim-indices', 'simulated outputs exist for %d index tuples, use_sim_mat selects %d' % (len(sim_outputs), int(use_sim_mat.sum())), inp)
+        if regime == 'analytic' and use_sim_mat.any():
+            chk.fail('low_cov_precalc:threshold-1', 'sim_threshold = 1 ("always analytic") simulates %d entries' % int(use_sim_mat.sum()), inp)
+        if regime == 'simulated' and not use_sim_mat.all():
+            # threshold 0 means "always simulate" unless the no-call probability is exactly 0
+            if np.any((pn > 0) & ~use_sim_mat):
+                chk.fail('low_cov_precalc:threshold-0', 'sim_threshold = 0 leaves entries with positive no-call probability analytic', inp)
     # K: use_sim_mat and the whole output against the model
     if not (have_driver(ctx) and do_model):
         return
-    drv = ctx['driver']
-    popstr = ';'.join('%s@%d@%d@%s' % (fmt_list(p['cov']), p['nseq'], p['nsub'], rat(0.0 if case.get('Fx_none') else p['F'])) for p in pops)
-    pn = np.asarray(prob_nocall_ND, dtype=float)
-    borderline = bool(np.any(np.abs(pn - case['thr']) <= 1e-9 * max(1.0, abs(case['thr'])))) and 0 < case['thr'] < 1
-    o1 = drv.ask('lp_usesim %s %s' % (rat(case['thr']), popstr))
-    if not o1.startswith('ok '):
-        chk.k_bad('usesim', inp, use_sim_mat.astype(int), o1, None); return
-    mus = parse_ndf(o1[3:]) > 0.5
-    if np.array_equal(mus, use_sim_mat):
-        chk.k_ok('usesim')
-    elif borderline or tinyF:
-        chk.k_skipped += 1; return
-    else:
-        chk.k_bad('usesim', inp, use_sim_mat.astype(int), mus.astype(int), None); return
-    sims = '-' if not sim_outputs else ';'.join('%s=%s' % ('.'.join(str(int(a)) for a in af), fmt_list(np.asarray(so, dtype=float).ravel().tolist())) for af, so in sim_outputs.items())
-    o2 = drv.ask('lp_corrected %s %s %s %s' % (rat(case['thr']), popstr, fmt_nd(mdata), sims))
-    if not o2.startswith('ok '):
-        chk.k_bad('corrected', inp, odata, o2[:300], None); return
-    mo = parse_ndf(o2[3:])
+    res = model_corrected(ctx, case, mdata, sim_outputs)
+    if isinstance(res, str):
+        chk.k_bad('corrected', inp, odata, res, None); return
+    mus, mo = res
+    if use_sim_mat is not None:
+        borderline = bool(np.any(np.abs(pn - case['thr']) <= 1e-9 * max(1.0, abs(case['thr'])))) and 0 < case['thr'] < 1
+        if np.array_equal(mus, use_sim_mat):
+            chk.k_ok('usesim')
+        elif borderline or tinyF:
+            chk.k_skipped += 1; return
+        else:
+            chk.k_bad('usesim', inp, use_sim_mat.astype(int), mus.astype(int), None); return
     ok, err, sc = close(vis, mo, rtol=RTOL, atol=RTOL * scale)
     if ok: chk.k_ok('corrected:%s' % regime)
     elif tinyF: chk.k_skipped += 1
     else: chk.k_bad('corrected:%s' % regime, inp, odata, mo, err)
-    chk.sample(dict(nseq=nseq, nsub=nsub, regime=regime, F=[p['F'] for p in pops], total_in=tot_in, total_out=tot_out, simulated_entries=int(use_sim_mat.sum())))
+    chk.sample(dict(nseq=nseq, nsub=nsub, regime=regime, F=[p['F'] for p in pops], total_in=tot_in, total_out=tot_out,
+                    simulated_entries=(None if use_sim_mat is None else int(use_sim_mat.sum()))))
+
+# --------------------------------------------------------------------------- several low-pass functions in one process
+CHILD = ("import sys, json\nsys.path[:0] = [%r, %r, %r]\nimport warnings; warnings.filterwarnings('ignore')\nimport logging; logging.disable(logging.WARNING)\n"
+         "from harness import c18\nc18._child()\n")
+
+def _child():
+    """fresh interpreter: build and evaluate the one function described on stdin, print its output"""
+    import sys, json
+    import dadi
+    case = case_from_json(json.load(sys.stdin))
+    ctx = dict(dadi=dadi, driver=None)
+    model, out, pre, calls = run_lowpass(ctx, case)
+    sims = {} if pre is None else {'.'.join(str(int(a)) for a in af): np.asarray(so, dtype=float).ravel().tolist() for af, so in pre[4].items()}
+    json.dump(dict(data=np.asarray(np.ma.getdata(out), dtype=float).ravel().tolist(), mask=np.ma.getmaskarray(out).astype(int).ravel().tolist(),
+                   shape=list(out.shape), sims=sims), sys.stdout)
+
+def alone_in_subprocess(ctx, case):
+    """the function built and evaluated in a fresh interpreter (no history at all)"""
+    import subprocess, sys, json, os
+    code = CHILD % (common.VERIF, os.path.join(common.VERIF, 'tools'), ctx.get('repo') or common.REPO)
+    p = subprocess.run([sys.executable, '-c', code], input=json.dumps(common.jsonable(small_case(case))).encode(),
+                       stdout=subprocess.PIPE, stderr=subprocess.PIPE, timeout=600, env=dict(os.environ, OMP_NUM_THREADS='1'))
+    if p.returncode != 0:
+        raise common.Infra('C18 child interpreter failed: ' + p.stderr.decode(errors='replace')[-1500:])
+    txt = p.stdout.decode()
+    r = json.loads(txt[txt.index('{'):])
+    shape = tuple(r['shape'])
+    data = np.array(r['data'], dtype=float).reshape(shape); mask = np.array(r['mask'], dtype=bool).reshape(shape)
+    sims = {tuple(int(t) for t in k.split('.')): np.array(v, dtype=float).reshape(shape) for k, v in r['sims'].items()}
+    return np.ma.masked_array(data, mask=mask), sims
+
+def small_scenario(sc):
+    return dict(kind='history', what=sc['what'], funcs=[small_case(c, 'history-func') for c in sc['funcs']], order=[int(k) for k in sc['order']],
+                build_first=bool(sc['build_first']), reference=sc.get('reference', 'reload'))
+
+def check_history(chk, ctx, sc):
+    """Several low-pass functions built in ONE process (same population names; same or different sizes / options / coverage),
+    evaluated in a given order, some repeatedly.  Every result must (a) equal the result of the same function built and
+    evaluated alone (module state reloaded, or a fresh interpreter), (b) equal the exact model fed that function's own coverage
+    distributions, (c) satisfy the closure properties and, for deeply covered data, the deep-coverage identity."""
+    inp = small_scenario(sc)
+    funcs = sc['funcs']; order = list(sc['order'])
+    chk.l3(('history', sc['what'], len(funcs), len(order), sc['build_first'], sc.get('reference', 'reload'),
+            tuple(sorted(set(regime_of(c) for c in funcs))), len(funcs[0]['pops'])))
+    chk.stat('history_' + sc['what'])
+    # ---- references: each function alone
+    refs = []
+    for k, c in enumerate(funcs):
+        try:
+            with warnings.catch_warnings():
+                warnings.simplefilter('ignore')
+                if sc.get('reference') == 'subprocess':
+                    out, sims = alone_in_subprocess(ctx, c)
+                    model = build_lowpass(ctx, LPmod(ctx), c)[1]([], [p['nseq'] for p in c['pops']], None)
+                else:
+                    model, out, pre, _ = run_lowpass(ctx, c)
+                    sims = {} if pre is None else {tuple(int(a) for a in af): np.asarray(so, dtype=float) for af, so in pre[4].items()}
+        except common.Infra:
+            raise
+        except Exception as e:
+            chk.fail('make_low_pass_func:raises:%s' % type(e).__name__, 'function %d alone raises %r' % (k, e), inp); return
+        refs.append((model, out, sims))
+    # ---- the session: one process, shared module state
+    LP = fresh_LP(ctx)
+    built = {}
+    results = [[] for _ in funcs]
+    try:
+        with warnings.catch_warnings():
+            warnings.simplefilter('ignore')
+            if sc['build_first']:
+                for k, c in enumerate(funcs):
+                    built[k] = build_lowpass(ctx, LP, c)[0]
+            for step, k in enumerate(order):
+                if k not in built:
+                    built[k] = build_lowpass(ctx, LP, funcs[k])[0]
+                results[k].append((step, eval_lowpass(LP, built[k], funcs[k])))
+    except Exception as e:
+        chk.fail('make_low_pass_func:history:raises:%s' % type(e).__name__, 'evaluating the functions in order %r raises %r' % (order, e), inp); return
+    finally:
+        fresh_LP(ctx)            # leave no state behind for the next case
+    for k, c in enumerate(funcs):
+        model, ref, sims = refs[k]
+        mdata = model_data(model); scale = max(float(np.max(np.abs(mdata))), 1e-300)
+        rvis = unmasked(ref)
+        desc = 'function %d (%s; coverage %s, nseq=%r nsub=%r Fx=%r thr=%r nsim=%r)' % (
+            k, regime_of(c), '/'.join(p.get('cov_kind', '?') for p in c['pops']), [p['nseq'] for p in c['pops']], [p['nsub'] for p in c['pops']],
+            [p['F'] for p in c['pops']], c['thr'], c['nsim'])
+        mo = None
+        if have_driver(ctx) and not any(0 < p['F'] < TINY_F for p in c['pops']):
+            res = model_corrected(ctx, c, mdata, sims)
+            if not isinstance(res, str):
+                mo = res[1]
+        for step, out in results[k]:
+            tag = 'step %d of order %r, %s: ' % (step, order, desc)
+            if not closure_checks(chk, c, model, out, inp, tag):
+                continue
+            vis = unmasked(out)
+            # (a) history independence
+            same_mask = np.array_equal(np.ma.getmaskarray(out), np.ma.getmaskarray(ref))
+            err = float(np.max(np.abs(vis - rvis))) if vis.shape == rvis.shape else float('inf')
+            if err > 1e-9 * scale or not same_mask:
+                rel = err / max(float(np.max(np.abs(rvis))), 1e-300)
+                chk.fail('make_low_pass_func:history-dependent', '%sthe corrected model differs from the one the same function gives when built and evaluated alone '
+                         '(%s) by %.3g (%.1f%% of the largest entry)%s — the result depends on which other low-pass functions were used before'
+                         % (tag, sc.get('reference', 'reload'), err, 100 * rel, '' if same_mask else '; masks differ'), inp)
+            # (b) the exact model with this function's own coverage distributions
+            if mo is not None:
+                ok, kerr, _ = close(vis, mo, rtol=RTOL, atol=RTOL * scale)
+                if ok: chk.k_ok('corrected:history')
+                else: chk.k_bad('corrected:history', dict(inp, function=k, step=step), vis, mo, kerr)
+            # (c) deep coverage
+            if c.get('deep'):
+                deep_check(chk, ctx, c, model, out, inp, tag)
+
+def gen_history(rng, tier, what=None, d=None, regime=None, reference='reload'):
+    whats = ['cov-differs', 'cov-differs', 'cov-differs', 'Fx-differs', 'nsub-differs', 'nseq-differs', 'thr-differs', 'nsim-differs', 'model-differs', 'mixed']
+    if what is None:
+        what = whats[int(rng.integers(len(whats)))]
+    if d is None:
+        d = int(rng.choice([1, 1, 2]))
+    if regime is None:
+        regime = ['analytic', 'analytic', 'analytic', 'mixed', 'simulated'][int(rng.integers(5))]
+    hi = {1: 12, 2: 6}[d] if regime == 'analytic' else {1: 8, 2: 4}[d]
+    ids = ['pop%d' % i for i in range(d)]
+    base = gen_lowpass_case(rng, tier, d=d, regime=regime, deep=False)
+    for p in base['pops']:
+        p['nseq'], p['nsub'] = gen_sizes(rng, hi)
+        if p['nseq'] < 4 and what in ('nsub-differs',):
+            p['nseq'] = 4; p['nsub'] = 4
+    base['Fx_none'] = False; base['mask'] = None; base['ids'] = ids
+    shape = [p['nseq'] + 1 for p in base['pops']]
+    base['data'], base['model_kind'] = gen_model(rng, shape, kind=['neutral', 'random', 'spike'][int(rng.integers(3))])
+    def variant(**kw):
+        import copy
+        c = copy.deepcopy(base)
+        c['sim_seed'] = int(rng.integers(1, 2 ** 31))
+        for k, v in kw.items():
+            c[k] = v
+        return c
+    def deep_pops(c):
+        for p in c['pops']:
+            if rng.random() < 0.5:
+                D = int(rng.integers(40, 81)); p['cov'] = [0.0] * D + [1.0]; p['cov_kind'] = 'point-deep'
+            else:
+                p['cov'], p['cov_kind'] = gen_cov(rng, 'deep')
+        c['deep'] = True
+        return c
+    def low_pops(c):
+        for p in c['pops']:
+            p['cov'], p['cov_kind'] = gen_cov(rng, ['poisson', 'mostly-zero', 'geometric', 'two-point', 'depth1-only'][int(rng.integers(5))])
+        c['deep'] = False
+        return c
+    funcs = []
+    if what in ('cov-differs', 'mixed'):
+        funcs = [low_pops(variant()), deep_pops(variant())]
+        if rng.random() < 0.5:
+            funcs.append(low_pops(variant()))
+        if rng.random() < 0.3:
+            funcs.append(deep_pops(variant()))
+    if what in ('Fx-differs', 'mixed'):
+        for _ in range(2):
+            c = variant()
+            for p in c['pops']: p['F'] = gen_F(rng)
+            funcs.append(c)
+    if what in ('nsub-differs', 'mixed'):
+        for _ in range(2):
+            c = variant()
+            for p in c['pops']: p['nsub'] = 2 * int(rng.integers(1, p['nseq'] // 2 + 1))
+            funcs.append(c)
+    if what == 'nseq-differs':
+        for _ in range(2):
+            c = variant()
+            for p in c['pops']:
+                p['nseq'] = max(p['nsub'], 2 * int(rng.integers(1, hi // 2 + 1)))
+            c['data'], _ = gen_model(rng, [p['nseq'] + 1 for p in c['pops']], kind='random')
+            funcs.append(c)
+    if what == 'thr-differs':
+        funcs = [variant(thr=1.0), variant(thr=float(rng.choice([1e-2, 0.25, 0.5]))), variant(thr=1.0)]
+    if what == 'nsim-differs':
+        funcs = [variant(nsim=50), variant(nsim=200)]
+    if what == 'model-differs':
+        for _ in range(2):
+            c = variant()
+            c['data'], c['model_kind'] = gen_model(rng, shape)
+            funcs.append(c)
+    if what != 'cov-differs' and rng.random() < 0.5:
+        funcs.append(deep_pops(variant()))                # a deeply covered data set in every kind of session
+    perm = [int(k) for k in rng.permutation(len(funcs))]
+    funcs = [funcs[k] for k in perm]
+    order = list(range(len(funcs))) + [int(k) for k in rng.integers(0, len(funcs), size=int(rng.integers(1, len(funcs) + 2)))]
+    if rng.random() < 0.5:
+        order = [int(k) for k in rng.permutation(order)]
+    return dict(what=what, funcs=funcs, order=order, build_first=bool(rng.random() < 0.5), reference=reference)
 
 def gen_lowpass_case(rng, tier, d=None, regime=None, deep=False):
     if d is None:
@@ -714,6 +992,16 @@ def run(chk, ctx):
     plan += [(1, 'analytic', True)] * (10 if quick else 60) + [(2, 'analytic', True)] * (5 if quick else 30) + [(1, 'mixed', True)] * (4 if quick else 16) + [(3, 'analytic', True)] * (2 if quick else 8)
     for d, regime, deep in plan:
         check_lowpass(chk, ctx, gen_lowpass_case(rng, tier, d=d, regime=regime, deep=deep))
+    # ---- several low-pass functions in one process (same population names): history independence
+    nh = 40 if quick else 220
+    for it in range(nh):
+        d = 1 if it % 3 else 2
+        regime = ['analytic', 'analytic', 'mixed', 'analytic', 'simulated'][it % 5]
+        what = 'cov-differs' if it % 4 == 0 else None
+        check_history(chk, ctx, gen_history(rng, tier, what=what, d=d, regime=regime))
+    for it in range(2 if quick else 10):                 # references computed in a fresh interpreter
+        check_history(chk, ctx, gen_history(rng, tier, what=['cov-differs', 'mixed', 'Fx-differs'][it % 3], d=1 + it % 2,
+                                            regime=['analytic', 'mixed'][it % 2], reference='subprocess'))
     check_refusals(chk, ctx, rng)
 
 def replay(chk, ctx, data):
@@ -740,8 +1028,9 @@ def replay(chk, ctx, data):
     elif kind == 'enough':
         check_enough(chk, ctx, [float(v) for v in inp['cov']], int(inp['nseq']), int(inp['nsub']))
     elif kind == 'lowpass':
-        case = dict(inp)
-        case['data'] = arr(inp['data']); case['mask'] = arr(inp.get('mask'), int)
-        check_lowpass(chk, ctx, case)
+        check_lowpass(chk, ctx, case_from_json(inp))
+    elif kind == 'history':
+        check_history(chk, ctx, dict(what=inp.get('what', 'replay'), funcs=[case_from_json(c) for c in inp['funcs']], order=[int(k) for k in inp['order']],
+                                     build_first=bool(inp.get('build_first')), reference=inp.get('reference', 'reload')))
     else:
         run(chk, ctx)
